@@ -53,9 +53,15 @@ def run(chk):
     else:
         sel_test = sel.test if sel is not None else None
     if sel is None:
-        chk.ob("R-T0", c + "{selector}", "a test `periods[0] == 0` selects the offset", False, derived="not found", loc=fi.loc())
+        chk.ob("R-T0", c + "{selector}", "a test `periods[0] == 0` selects the offset", False, derived="not found (the design with a row offset chosen by such a test is the one this rule knows)",
+               inconclusive=True, loc=fi.loc())
         return
     op = type(sel_test.ops[0]).__name__
+    thr = sel_test.comparators[0].value
+    if thr != 0:
+        chk.ob("R-T0", c + "{selector}", "the rigid row is selected by `periods[0] == 0` (a period of exactly 0, nothing else)", False,
+               derived="selected by %s" % " ".join(ast.unparse(sel_test).split()), loc=fi.loc(sel), stmt=norm_stmt(sel.test))
+        return
 
     def const_assign(stmts):
         d = {}
@@ -67,7 +73,7 @@ def run(chk):
     svar = [k for k in tb if k in fb and {tb[k], fb[k]} == {0, 1}]
     if len(svar) != 1:
         chk.ob("R-T0", c + "{selector}", "the test assigns an offset in {0, 1} on both branches", False,
-               derived="then %s else %s" % (tb, fb), loc=fi.loc(sel))
+               derived="then %s else %s" % (tb, fb), inconclusive=True, loc=fi.loc(sel))
         return
     s = svar[0]
     when_zero = tb[s] if op == "Eq" else (fb[s] if op == "NotEq" else None)
@@ -473,7 +479,8 @@ def _t0_selector(fi, per):
         if isinstance(t, ast.Compare) and len(t.ops) == 1:
             l, r0 = t.left, t.comparators[0]
             if isinstance(l, ast.Subscript) and isinstance(l.value, ast.Name) and l.value.id == per and \
-                    isinstance(l.slice, ast.Constant) and l.slice.value == 0 and isinstance(r0, ast.Constant) and r0.value == 0:
+                    isinstance(l.slice, ast.Constant) and l.slice.value == 0 and isinstance(r0, ast.Constant) and \
+                    isinstance(r0.value, (int, float)) and not isinstance(r0.value, bool):
                 return t
         return None
     for n in ast.walk(fi.node):
